@@ -59,7 +59,7 @@ def t_trace_methods(E):
     E.prove("C38.Trace.update.default_argdiffs_are_no_change", E.And(E.eq(upd_d[0], dn[0]), E.eq(upd_d[1], dn[1])))
     gu = E.method(g, "update", k, tr, c, ad)
     E.prove("C38.GenerativeFunction.update.equals_update_request", E.And(
-        E.eq(gu[0], direct[0]), E.eq(gu[1], direct[1]), E.eq(gu[3], direct[3].fields["constraint"])))
+        E.eq(gu[0], direct[0]), E.eq(gu[1], direct[1]), E.eq(gu[2], direct[2]), E.eq(gu[3], direct[3].fields["constraint"])))
     s = E.opaque("sel", "Selection")
     E.prove("C38.Trace.project.equals_gen_fn_project", E.eq(E.method(tr, "project", k, s), E.method(g, "project", k, tr, s)))
     E.refutable("derived.trace_methods", E.eq(upd[1], 0.0))
